@@ -21,7 +21,7 @@ use rosu_map::{
 
 use crate::{
     gen::osu,
-    model::timing,
+    model::{framing, sections, timing},
     obs::recorder::Trace,
     util::{fnv64, show, Ctx, Rng, J},
 };
@@ -174,14 +174,43 @@ fn recompute(ctx: &mut Ctx, index: u64, text: &str) -> bool {
         }
         let cp = &full.control_points;
         let mode = full.mode;
-        // the beat length and slider-velocity multiplier active at a slider's start come from the
-        // legacy model of the file's timing-point lines (independent of the library's own lists)
-        let tlines: Vec<&str> = trace.calls.iter().filter(|(sec, _)| *sec == 5).map(|(_, l)| l.as_str()).collect();
-        let (mcp, _) = timing::model(&tlines, 0, 0, 100);
+        // Reference interpretation of the file, independent of the library: framing model -> section
+        // model (mode, slider multiplier, sample defaults, breaks) -> legacy model of the timing lines.
+        let mtrace = framing::model(bytes);
+        let mut exp = sections::R::default();
+        let mut aux = sections::Aux::default();
+        let mut general_after_timing = false;
+        let mut timing_seen = false;
+        let mut tlines: Vec<&str> = Vec::new();
+        for (sec, line) in &mtrace.calls {
+            match *sec {
+                5 => {
+                    timing_seen = true;
+                    tlines.push(line.as_str());
+                }
+                0 if timing_seen => general_after_timing = true,
+                _ => {}
+            }
+            if *sec != 5 && *sec != 7 {
+                sections::apply(&mut exp, &mut aux, *sec, line);
+            }
+        }
+        let (mcp, _) = timing::model(&tlines, exp.mode, exp.bank, exp.vol);
+        if general_after_timing {
+            // the defaults in force while the timing lines were read are not the final ones
+            ctx.count("maps_with_general_lines_after_timing_lines");
+        } else {
+            ctx.count("control_point_lists_cross_checked");
+            let got = timing::project(cp);
+            if !timing::same(&mcp, &got) {
+                ctx.violation("active_points", format!("control points differ from the legacy model of the file's timing lines\n real:  {got:?}\n model: {mcp:?}"), index, bytes);
+                return;
+            }
+        }
         // 2. the first object after each break starts a new combo (holds carry no combo)
         let mut first_after_break = vec![false; raw.len()];
-        for b in &full.breaks {
-            if let Some(k) = raw.iter().position(|(_, o)| b.end_time < o.start_time) {
+        for &(_, b_end) in &exp.breaks {
+            if let Some(k) = raw.iter().position(|(_, o)| b_end < o.start_time) {
                 first_after_break[k] = true;
                 ctx.count("breaks_followed_by_an_object");
             }
@@ -231,9 +260,9 @@ fn recompute(ctx: &mut Ctx, index: u64, text: &str) -> bool {
                     if bl_lib != bl || sv_lib != sv {
                         ctx.violation("active_points", format!("slider at {:?}: active beat length / multiplier {bl_lib:?} / {sv_lib:?}, legacy model of the timing lines says {bl:?} / {sv:?}", ro.start_time), index, bytes);
                     }
-                    let v = 100.0 * full.slider_multiplier * sv_eff / bl;
+                    let v = 100.0 * exp.sm * sv_eff / bl;
                     if ((fs.velocity - v) / v).abs() > 1e-12 {
-                        ctx.violation("velocity", format!("slider at {:?}: velocity {:?}, closed form {v:?} (SM {}, sv {sv}, beat length {bl})", ro.start_time, fs.velocity, full.slider_multiplier), index, bytes);
+                        ctx.violation("velocity", format!("slider at {:?}: velocity {:?}, closed form {v:?} (SM {}, sv {sv}, beat length {bl})", ro.start_time, fs.velocity, exp.sm), index, bytes);
                     }
                     let dist = rs.path.clone().curve().dist();
                     let spans = f64::from(rs.repeat_count + 1);
